@@ -33,7 +33,9 @@ class FlatFunc(FuncInfo):
     def loc(self, node=None):  # type: ignore[override]
         n = node if node is not None else self.node
         org = getattr(n, "_origin_path", None)
-        return f"{org or self.module.relpath}:{getattr(n, 'lineno', 0)}"
+        if org and org != self.module.relpath:
+            return f"{org}:{getattr(n, 'lineno', 0)}"
+        return f"{self.module.relpath}:{self.module.line(n)}"
 
     def __hash__(self):
         return hash(self.qualname)
@@ -60,6 +62,9 @@ class _Rename(ast.NodeTransformer):
             return node
         if isinstance(m, str):
             new = ast.Name(id=m, ctx=node.ctx)
+            for a in ("_origin_mod", "_origin_path"):
+                if hasattr(node, a):
+                    setattr(new, a, getattr(node, a))
             return ast.copy_location(new, node)
         if isinstance(node.ctx, ast.Load):
             new = copy.deepcopy(m)
@@ -73,6 +78,100 @@ class _Rename(ast.NodeTransformer):
         self.generic_visit(node)
         self.mapping = saved
         return node
+
+
+def _is_function_value(v: ast.AST) -> bool:
+    """A lambda, or ``attrgetter("a")`` / ``itemgetter(k)``."""
+    if isinstance(v, ast.Lambda):
+        a = v.args
+        return not (a.vararg or a.kwarg or a.kwonlyargs or a.defaults)
+    def const(a):
+        return isinstance(a, ast.Constant) or (isinstance(a, ast.UnaryOp) and isinstance(a.op, ast.USub) and isinstance(a.operand, ast.Constant))
+
+    if isinstance(v, ast.Call) and not v.keywords and v.args and all(const(a) for a in v.args):
+        fn = ast.unparse(v.func).split(".")[-1]
+        return (fn == "attrgetter" and all(isinstance(a, ast.Constant) and isinstance(a.value, str) for a in v.args)) or fn == "itemgetter"
+    return False
+
+
+def _only_called(fnode, name: str) -> bool:
+    """Every use of ``name`` in the function is as the callee of a call."""
+    called = {id(n.func) for n in ast.walk(fnode) if isinstance(n, ast.Call) and isinstance(n.func, ast.Name) and n.func.id == name}
+    uses = [n for n in ast.walk(fnode) if isinstance(n, ast.Name) and n.id == name]
+    return bool(uses) and all(id(u) in called for u in uses)
+
+
+class _BetaReduce(ast.NodeTransformer):
+    """``(lambda x: E)(a)`` -> ``E[x := a]`` for pure-path arguments,
+    ``attrgetter("f")(a)`` -> ``a.f``, ``itemgetter(k)(a)`` -> ``a[k]``."""
+
+    def visit_Call(self, n: ast.Call):
+        self.generic_visit(n)
+        f = n.func
+        # g(**{"k": v})  ->  g(k=v)   (after a parameter holding the key name
+        # was substituted by its constant)
+        if any(k.arg is None and isinstance(k.value, ast.Dict) for k in n.keywords):
+            new = []
+            for k in n.keywords:
+                d = k.value
+                if k.arg is None and isinstance(d, ast.Dict) and d.keys and all(
+                    isinstance(x, ast.Constant) and isinstance(x.value, str) and x.value.isidentifier() for x in d.keys
+                ):
+                    new += [ast.keyword(arg=x.value, value=v) for x, v in zip(d.keys, d.values)]
+                else:
+                    new.append(k)
+            n.keywords = new
+        if n.keywords or any(isinstance(a, ast.Starred) for a in n.args):
+            return n
+        if isinstance(f, ast.Lambda) and _is_function_value(f) and len(f.args.args) == len(n.args) and all(_is_path_expr(a) for a in n.args):
+            m = {p.arg: a for p, a in zip(f.args.args, n.args)}
+            return ast.copy_location(_Rename(m).visit(copy.deepcopy(f.body)), n)
+        if isinstance(f, ast.Call) and _is_function_value(f) and len(n.args) == 1:
+            fn = ast.unparse(f.func).split(".")[-1]
+            if not _is_path_expr(n.args[0]) and len(f.args) > 1:
+                return n  # the operand would be evaluated several times
+            parts = []
+            for key in f.args:
+                if fn == "attrgetter":
+                    e: ast.AST = copy.deepcopy(n.args[0])
+                    for piece in key.value.split("."):
+                        e = ast.Attribute(value=e, attr=piece, ctx=ast.Load())
+                else:
+                    e = ast.Subscript(value=copy.deepcopy(n.args[0]), slice=key, ctx=ast.Load())
+                parts.append(ast.copy_location(e, n))
+            if len(parts) == 1:
+                return parts[0]
+            return ast.copy_location(ast.Tuple(elts=parts, ctx=ast.Load()), n)
+        return n
+
+
+def _kwarg_only_forwarded(fnode, name: str) -> bool:
+    """The ``**name`` parameter is used only as ``g(..., **name)``."""
+    fwd = set()
+    for n in ast.walk(fnode):
+        if isinstance(n, ast.Call):
+            for k in n.keywords:
+                if k.arg is None and isinstance(k.value, ast.Name) and k.value.id == name:
+                    fwd.add(id(k.value))
+    for n in ast.walk(fnode):
+        if isinstance(n, ast.Name) and n.id == name and id(n) not in fwd:
+            return False
+    return True
+
+
+def _expand_kwarg(body, name: str, extra: list[ast.keyword]):
+    """Replaces ``**name`` in the calls of ``body`` by the keywords the caller
+    passed (``extra``)."""
+    for st in body:
+        for n in ast.walk(st):
+            if isinstance(n, ast.Call):
+                new = []
+                for k in n.keywords:
+                    if k.arg is None and isinstance(k.value, ast.Name) and k.value.id == name:
+                        new += [copy.deepcopy(e) for e in extra]
+                    else:
+                        new.append(k)
+                n.keywords = new
 
 
 def _all_paths_return(stmts) -> bool:
@@ -134,6 +233,33 @@ def _tailify(stmts, make_result):
                 out.append(new)
                 return out
             return None
+        if isinstance(st, ast.Try) and not st.finalbody and not _has_return(st.body) and st.handlers:
+            # try: A / except E: ...; return   followed by REST   is the same as
+            # try: A / except E: ... / else: REST   (the else clause, like REST,
+            # is not covered by the handlers) - provided every handler leaves
+            hs = []
+            for h in st.handlers:
+                if not (_all_paths_return(h.body) or (h.body and isinstance(h.body[-1], ast.Raise))):
+                    hs = None
+                    break
+                hb = _tailify(h.body, make_result)
+                if hb is None:
+                    hs = None
+                    break
+                nh = copy.copy(h)
+                nh.body = hb or [ast.Pass()]
+                hs.append(nh)
+            if hs is None:
+                return None
+            tail = list(st.orelse) + list(stmts[i + 1:])
+            o = _tailify(tail, make_result)
+            if o is None:
+                return None
+            new = copy.copy(st)
+            new.handlers = hs
+            new.orelse = o
+            out.append(new)
+            return out
         if _has_return([st]):
             return None
         out.append(st)
@@ -165,7 +291,9 @@ class Normalizer:
         self._flat: dict[tuple, FlatFunc] = {}
 
     # ------------------------------------------------------------ inlining
-    def _inline_target(self, fi: FuncInfo, call: ast.Call, banned: set[str]):
+    def _inline_target(self, fi: FuncInfo, call: ast.Call, banned: set[str], gen: bool = False):
+        """``gen``: look for a *generator* helper instead (inlined into the
+        for-loop that consumes it, see _inline_for_gen)."""
         ts, _ = self.ctx.res.callees(fi, call, fi.cls)
         if len(ts) != 1:
             return None
@@ -174,7 +302,8 @@ class Normalizer:
             return None
         if t.decorators and not (t.is_static or t.is_classmethod):
             return None
-        if any(isinstance(n, (ast.Yield, ast.YieldFrom, ast.Await)) for n in ast.walk(t.node)):
+        is_gen = any(isinstance(n, (ast.Yield, ast.YieldFrom)) for n in own_nodes(t.node))
+        if any(isinstance(n, ast.Await) for n in ast.walk(t.node)) or is_gen != gen:
             return None
         if len(list(ast.walk(t.node))) > 600:
             return None
@@ -183,9 +312,20 @@ class Normalizer:
         same_cls = t.cls is not None and fi.cls is not None and (t.cls.qualname in fi.cls.mro or fi.cls.qualname in t.cls.mro)
         same_mod = t.module is fi.module
         private = t.name.startswith("_") and not t.name.startswith("__")
-        if not (private and (same_cls or same_mod)):
-            return None
-        return t
+        if private and (same_cls or same_mod):
+            return t
+        # a module-level function of the package that no __init__ re-exports
+        # is an internal helper wherever it lives (helpers moved to a new
+        # private module)
+        if (
+            t.cls is None and t.parent is None and not t.decorators
+            and t.name not in self.ctx.repo.exported_names()
+            and (private or (
+                t.module.name != (getattr(self, "_root_module", None) or fi.module.name)
+                and t.module.name.rsplit(".", 1)[-1].startswith("_")))
+        ):
+            return t
+        return None
 
     def _bind(self, t: FuncInfo, call: ast.Call, suffix: str, subst_all: bool = False):
         """(prefix assignments, rename mapping) for inlining ``t`` at ``call``."""
@@ -196,7 +336,9 @@ class Normalizer:
         for p, d in zip(kwonly, a.kw_defaults):
             if d is not None:
                 defaults[p] = d
-        if a.vararg or a.kwarg:
+        if a.vararg:
+            return None
+        if a.kwarg and not _kwarg_only_forwarded(t.node, a.kwarg.arg):
             return None
         args: dict[str, ast.AST] = {}
         is_method = t.cls is not None and not t.is_static
@@ -214,6 +356,8 @@ class Normalizer:
         for p, v in zip(pos, call.args):
             args[p] = v
         for k in call.keywords:
+            if a.kwarg and k.arg not in params and k.arg not in kwonly:
+                continue  # collected by **kwargs, forwarded verbatim (see _expand_kwarg)
             args[k.arg] = k.value
         for p in params + kwonly:
             if p not in args:
@@ -227,6 +371,16 @@ class Normalizer:
         prefix = []
         for p, v in args.items():
             simple = _is_path_expr(v)
+            if not simple and p not in assigned and _is_function_value(v) and _only_called(t.node, p):
+                # a callable handed to a higher-order helper that only calls
+                # it: substitute, the calls are beta-reduced afterwards
+                mapping[p] = v
+                continue
+            if not simple and p not in assigned and self._lazy_gen_arg(t, p, v):
+                # gen(args) handed to a helper whose first action is to loop
+                # over it: creating the generator at the loop is the same
+                mapping[p] = v
+                continue
             if p not in assigned and (simple or subst_all):
                 mapping[p] = v
             else:
@@ -242,6 +396,19 @@ class Normalizer:
                 # being flattened are renamed apart
                 mapping[n] = f"{n}__{suffix}"
         return prefix, mapping
+
+    def _lazy_gen_arg(self, t: FuncInfo, p: str, v: ast.AST) -> bool:
+        """``v`` is a call with pure-path arguments, and parameter ``p`` is
+        used exactly once in ``t``: as the iterable of the for-loop that is the
+        first statement of ``t`` (nothing runs between the call and the loop)."""
+        if not (isinstance(v, ast.Call) and _is_path_expr(v.func) and all(_is_path_expr(a) for a in v.args)
+                and all(k.arg is not None and _is_path_expr(k.value) for k in v.keywords)):
+            return False
+        body = [x for x in body_of(t.node) if not (isinstance(x, ast.Expr) and isinstance(x.value, ast.Constant))]
+        if not body or not isinstance(body[0], ast.For):
+            return False
+        uses = [n for n in ast.walk(t.node) if isinstance(n, ast.Name) and n.id == p]
+        return len(uses) == 1 and uses[0] is body[0].iter
 
     def _inline_stmt(self, fi, st, depth, banned, is_tail):
         """Returns a list of statements replacing ``st`` or None."""
@@ -277,11 +444,20 @@ class Normalizer:
                 introduced |= {x.id for tg in st_.targets for x in ast.walk(tg) if isinstance(x, ast.Name)}
             self._caller_names |= introduced
         body = [copy.deepcopy(x) for x in body_of(t.node)]
-        ren = _Rename(mapping)
-        body = [ren.visit(x) for x in body]
+        # origin marks go on the helper's own nodes (before arguments of the
+        # caller are substituted into them): report positions and type-table
+        # look-ups of inlined code refer to the helper's module
         for x in body:
             for n in ast.walk(x):
-                n._origin_path = t.module.relpath  # type: ignore[attr-defined]
+                if not hasattr(n, "_origin_mod"):
+                    n._origin_path = t.module.relpath  # type: ignore[attr-defined]
+                    n._origin_mod = t.module.name  # type: ignore[attr-defined]
+        if t.node.args.kwarg is not None:
+            known = {p.arg for p in t.node.args.posonlyargs + t.node.args.args + t.node.args.kwonlyargs}
+            extra = [k for k in call.keywords if k.arg not in known]
+            _expand_kwarg(body, t.node.args.kwarg.arg, extra)
+        ren = _Rename(mapping)
+        body = [_BetaReduce().visit(ren.visit(x)) for x in body]
 
         def result_stmts(value, ret):
             if kind == "expr":
@@ -313,6 +489,225 @@ class Normalizer:
         if depth > 1:
             out = self._inline_block(self._tmp_fi(t, fi), out, depth - 1, banned | {t.qualname}, is_tail)
         return out
+
+    def _inline_for_gen(self, fi, st, depth, banned):
+        """``for T in gen(args): BODY`` with an inlinable generator helper
+        becomes the generator's body with every ``yield e`` replaced by
+        ``T = e; BODY`` - exactly the interleaving the generator protocol
+        performs.  Refused when the loop can leave early (break / return /
+        else clause) or the generator returns / uses yield as an expression."""
+        if not isinstance(st, ast.For) or st.orelse or not isinstance(st.iter, ast.Call):
+            return None
+        t = self._inline_target(fi, st.iter, banned, gen=True)
+        if t is None:
+            return None
+
+        def own(stmts):
+            for x in stmts:
+                yield x
+                for fld in ("body", "orelse", "finalbody", "handlers"):
+                    sub = getattr(x, fld, None)
+                    if isinstance(sub, list) and not isinstance(x, (ast.FunctionDef, ast.ClassDef, ast.AsyncFunctionDef)):
+                        yield from own([y for y in sub if isinstance(y, (ast.stmt, ast.excepthandler))])
+
+        def loop_exits(stmts, in_inner_loop=False):
+            for x in stmts:
+                if isinstance(x, ast.Return):
+                    return True
+                if isinstance(x, (ast.Break, ast.Continue)) and not in_inner_loop:
+                    return True
+                if isinstance(x, (ast.FunctionDef, ast.ClassDef, ast.AsyncFunctionDef)):
+                    continue
+                inner = in_inner_loop or isinstance(x, (ast.For, ast.While))
+                for fld in ("body", "orelse", "finalbody"):
+                    sub = getattr(x, fld, None)
+                    if isinstance(sub, list) and sub and isinstance(sub[0], ast.stmt) and loop_exits(sub, inner):
+                        return True
+                for h in getattr(x, "handlers", []) or []:
+                    if loop_exits(h.body, inner):
+                        return True
+            return False
+
+        if loop_exits(st.body):
+            return None
+        gbody = [copy.deepcopy(x) for x in body_of(t.node)]
+
+        def no_yield_from(stmts):
+            # `yield from X` as a statement  ->  `for _y in X: yield _y`
+            out = []
+            for x in stmts:
+                if isinstance(x, ast.Expr) and isinstance(x.value, ast.YieldFrom):
+                    _counter[0] += 1
+                    y = f"_y__f{_counter[0]}"
+                    tgt: ast.expr = ast.Name(id=y, ctx=ast.Store())
+                    val: ast.expr = ast.Name(id=y, ctx=ast.Load())
+                    ct = st.target
+                    if isinstance(ct, ast.Tuple) and ct.elts and all(isinstance(e, ast.Name) for e in ct.elts):
+                        # the consumer unpacks every element into k names: do
+                        # the unpacking in the loop header (same ValueError
+                        # otherwise), so each name keeps a visible origin
+                        names = [f"{y}_{i}" for i in range(len(ct.elts))]
+                        tgt = ast.Tuple(elts=[ast.Name(id=nm, ctx=ast.Store()) for nm in names], ctx=ast.Store())
+                        val = ast.Tuple(elts=[ast.Name(id=nm, ctx=ast.Load()) for nm in names], ctx=ast.Load())
+                    lp = ast.For(target=tgt, iter=x.value.value,
+                                 body=[ast.Expr(value=ast.Yield(value=val))], orelse=[])
+                    ast.copy_location(lp, x)
+                    ast.fix_missing_locations(lp)
+                    out.append(lp)
+                    continue
+                for fld in ("body", "orelse", "finalbody"):
+                    sub = getattr(x, fld, None)
+                    if isinstance(sub, list) and sub and isinstance(sub[0], ast.stmt) and not isinstance(x, (ast.FunctionDef, ast.ClassDef)):
+                        setattr(x, fld, no_yield_from(sub))
+                out.append(x)
+            return out
+
+        gbody = no_yield_from(gbody)
+        yields = [n for x in gbody for n in ast.walk(x) if isinstance(n, (ast.Yield, ast.YieldFrom))]
+        stmt_yields = [x for x in own(gbody) if isinstance(x, ast.Expr) and isinstance(x.value, ast.Yield)]
+        if any(isinstance(y, ast.YieldFrom) for y in yields) or len(stmt_yields) != len(yields) or not 1 <= len(yields) <= 3:
+            return None
+        if any(isinstance(x, (ast.FunctionDef, ast.Lambda, ast.ClassDef)) for y in gbody for x in ast.walk(y)):
+            return None
+        if any(isinstance(x, ast.Return) for x in own(gbody)):
+            return None
+        if any(y.value is None for y in yields):
+            return None
+        _counter[0] += 1
+        suffix = f"g{_counter[0]}"
+        b = self._bind(t, st.iter, suffix)
+        if b is None:
+            return None
+        prefix, mapping = b
+        if isinstance(getattr(self, "_caller_names", None), set):
+            introduced = set()
+            for nm in _names_assigned(gbody):
+                m_ = mapping.get(nm, nm)
+                introduced.add(m_ if isinstance(m_, str) else nm)
+            for st_ in prefix:
+                introduced |= {x.id for tg in st_.targets for x in ast.walk(tg) if isinstance(x, ast.Name)}
+            self._caller_names |= introduced
+        body = gbody
+        for x in body:
+            for n in ast.walk(x):
+                if not hasattr(n, "_origin_mod"):
+                    n._origin_path = t.module.relpath  # type: ignore[attr-defined]
+                    n._origin_mod = t.module.name  # type: ignore[attr-defined]
+        ren = _Rename(mapping)
+        body = [ren.visit(x) for x in body]
+
+        # with several yields the loop body is copied once per yield: give the
+        # loop variables of each copy their own names (single definitions),
+        # unless the function also uses them outside its loops
+        tnames = {x.id for x in ast.walk(st.target) if isinstance(x, ast.Name)}
+        per_yield = len(yields) > 1 and bool(tnames)
+        if per_yield:
+            in_loops = set()
+            for lp in ast.walk(fi.node):
+                if isinstance(lp, (ast.For, ast.comprehension)):
+                    if tnames & {x.id for x in ast.walk(lp.target) if isinstance(x, ast.Name)}:
+                        in_loops |= {id(x) for x in ast.walk(lp)}
+            for x in ast.walk(fi.node):
+                if isinstance(x, ast.Name) and x.id in tnames and id(x) not in in_loops:
+                    per_yield = False
+        n_y = [0]
+
+        def subst(stmts):
+            out = []
+            for x in stmts:
+                if isinstance(x, ast.Expr) and isinstance(x.value, ast.Yield):
+                    asg = ast.Assign(targets=[copy.deepcopy(st.target)], value=x.value.value)
+                    ast.copy_location(asg, st)
+                    lbody = [copy.deepcopy(y) for y in st.body]
+                    if per_yield:
+                        n_y[0] += 1
+                        rn = _Rename({nm: f"{nm}__y{n_y[0]}" for nm in tnames})
+                        asg.targets = [rn.visit(tg) for tg in asg.targets]
+                        lbody = [rn.visit(y) for y in lbody]
+                        if isinstance(getattr(self, "_caller_names", None), set):
+                            self._caller_names |= {f"{nm}__y{n_y[0]}" for nm in tnames}
+                    out.append(asg)
+                    out += lbody
+                    continue
+                for fld in ("body", "orelse", "finalbody"):
+                    sub = getattr(x, fld, None)
+                    if isinstance(sub, list) and sub and isinstance(sub[0], ast.stmt) and not isinstance(x, (ast.FunctionDef, ast.ClassDef)):
+                        setattr(x, fld, subst(sub))
+                for h in getattr(x, "handlers", []) or []:
+                    h.body = subst(h.body)
+                out.append(x)
+            return out
+
+        out = prefix + subst(body)
+        for x in out:
+            ast.fix_missing_locations(x)
+        if depth > 1:
+            out = self._inline_block(self._tmp_fi(t, fi), out, depth - 1, banned | {t.qualname}, False)
+        return out
+
+    def _desugar_chain(self, fi, st):
+        """``for x in itertools.chain.from_iterable(E): BODY`` (also through a
+        hoisted temporary) becomes ``for _row in E: for x in _row: BODY`` -
+        the same element sequence; refused when BODY can ``break``."""
+        if not isinstance(st, ast.For) or st.orelse:
+            return None
+        it = st.iter
+        if not (isinstance(it, ast.Call) and not it.keywords and len(it.args) == 1
+                and (ast.unparse(it.func) in ("itertools.chain.from_iterable", "chain.from_iterable"))):
+            return None
+
+        def breaks(stmts):
+            for x in stmts:
+                if isinstance(x, ast.Break):
+                    return True
+                if isinstance(x, (ast.For, ast.While, ast.FunctionDef, ast.ClassDef)):
+                    continue
+                for fld in ("body", "orelse", "finalbody"):
+                    sub = getattr(x, fld, None)
+                    if isinstance(sub, list) and sub and isinstance(sub[0], ast.stmt) and breaks(sub):
+                        return True
+                for h in getattr(x, "handlers", []) or []:
+                    if breaks(h.body):
+                        return True
+            return False
+
+        if breaks(st.body):
+            return None
+        _counter[0] += 1
+        row = f"_row__c{_counter[0]}"
+        inner = ast.For(target=st.target, iter=ast.Name(id=row, ctx=ast.Load()), body=st.body, orelse=[])
+        outer = ast.For(target=ast.Name(id=row, ctx=ast.Store()), iter=it.args[0], body=[inner], orelse=[])
+        for x in (inner, outer):
+            ast.copy_location(x, st)
+        ast.fix_missing_locations(outer)
+        return [outer]
+
+    def _desugar_update(self, fi, st, banned):
+        """``d.update(gen(args))`` with an inlinable generator helper of
+        key/value pairs becomes ``for k, v in gen(args): d[k] = v``."""
+        if not (isinstance(st, ast.Expr) and isinstance(st.value, ast.Call)):
+            return None
+        c = st.value
+        if not (isinstance(c.func, ast.Attribute) and c.func.attr == "update" and len(c.args) == 1 and not c.keywords
+                and isinstance(c.func.value, ast.Name) and isinstance(c.args[0], ast.Call)):
+            return None
+        if self._inline_target(fi, c.args[0], banned, gen=True) is None:
+            return None
+        t = self.ctx.types.type_of(fi.module, c.func.value) or ""
+        if not (t.startswith("builtins.dict") or t.startswith("dict") or "Dict" in t.split("[")[0] or t.startswith("TypedDict") or "ObservationDict" in t):
+            return None
+        _counter[0] += 1
+        k, v = f"_key__u{_counter[0]}", f"_value__u{_counter[0]}"
+        loop = ast.For(
+            target=ast.Tuple(elts=[ast.Name(id=k, ctx=ast.Store()), ast.Name(id=v, ctx=ast.Store())], ctx=ast.Store()),
+            iter=c.args[0],
+            body=[ast.Assign(
+                targets=[ast.Subscript(value=copy.deepcopy(c.func.value), slice=ast.Name(id=k, ctx=ast.Load()), ctx=ast.Store())],
+                value=ast.Name(id=v, ctx=ast.Load()))],
+            orelse=[])
+        ast.copy_location(loop, st)
+        ast.fix_missing_locations(loop)
+        return [loop]
 
     def _tmp_fi(self, t: FuncInfo, fi: FuncInfo) -> FuncInfo:
         # callee resolution inside inlined code happens in the helper's module
@@ -419,6 +814,17 @@ class Normalizer:
                             break
                         if not _is_path_expr(kw.value):
                             break
+            elif isinstance(st, (ast.Assign, ast.AnnAssign, ast.Return)) and isinstance(value, ast.Dict):
+                # {K1: helper(a), K2: ...}: keys and values are evaluated left to
+                # right; everything before the hoisted value must be a pure path
+                for i, (k, v) in enumerate(zip(value.keys, value.values)):
+                    if k is None or not _is_path_expr(k):
+                        break
+                    if wanted(v):
+                        holder = (value.values, i)
+                        break
+                    if not _is_path_expr(v):
+                        break
         if holder is None:
             return None
         _counter[0] += 1
@@ -446,6 +852,10 @@ class Normalizer:
                 for st in stmts:
                     rep = self._desugar_comp(fi, st, banned)
                     if rep is None:
+                        rep = self._desugar_chain(fi, st)
+                    if rep is None:
+                        rep = self._desugar_update(fi, st, banned)
+                    if rep is None:
                         rep = self._hoist(fi, st, banned)
                     if rep is not None:
                         changed = True
@@ -456,6 +866,8 @@ class Normalizer:
         for i, st in enumerate(stmts):
             is_tail = tail and i == len(stmts) - 1
             rep = self._inline_stmt(fi, st, depth, banned, is_tail) if depth > 0 else None
+            if rep is None and depth > 0:
+                rep = self._inline_for_gen(fi, st, depth, banned)
             if rep is not None:
                 out += rep
                 continue
@@ -467,7 +879,23 @@ class Normalizer:
                 for h in st.handlers:
                     h.body = self._inline_block(fi, h.body, depth, banned, False)
             out.append(st)
-        return out
+        # a hoisted loop header whose helper turned out to be a plain
+        # expression goes back into the header (`_t = chain(...); for x in _t:`)
+        res = []
+        for st in out:
+            prev = res[-1] if res else None
+            if (
+                isinstance(st, ast.For) and isinstance(st.iter, ast.Name) and st.iter.id.startswith("_arg__h")
+                and isinstance(prev, ast.Assign) and len(prev.targets) == 1 and isinstance(prev.targets[0], ast.Name)
+                and prev.targets[0].id == st.iter.id
+            ):
+                res.pop()
+                st.iter = prev.value
+                rep = self._desugar_chain(fi, st)
+                res += rep if rep is not None else [st]
+                continue
+            res.append(st)
+        return res
 
     def flat(self, fi: FuncInfo, depth: int = 2, keep: tuple = ()) -> FlatFunc:
         """``keep``: qualnames of helpers that must stay calls (a rule that
@@ -481,10 +909,13 @@ class Normalizer:
             saved = getattr(self, "_caller_names", set())
             self._caller_names = {n.id for n in ast.walk(fi.node) if isinstance(n, ast.Name)} | set(fi.params)
             self._flat_root = node
+            saved_root = getattr(self, "_root_module", None)
+            self._root_module = fi.module.name
             try:
                 node.body = self._inline_block(fi, list(node.body), depth, {fi.qualname} | set(keep))
             finally:
                 self._caller_names = saved
+                self._root_module = saved_root
         parents = {}
         for p in ast.walk(node):
             for c in ast.iter_child_nodes(p):
@@ -560,6 +991,28 @@ class Normalizer:
                 self.generic_visit(c)
                 if depth <= 0:
                     return c
+                # list(map(F, X)) / tuple(map(F, X)) with a known one-argument F
+                if (
+                    isinstance(c.func, ast.Name) and c.func.id in ("list", "tuple") and len(c.args) == 1 and not c.keywords
+                    and isinstance(c.args[0], ast.Call) and isinstance(c.args[0].func, ast.Name) and c.args[0].func.id == "map"
+                    and len(c.args[0].args) == 2 and not c.args[0].keywords
+                ):
+                    fn, seq = c.args[0].args
+                    if isinstance(fn, ast.Name) and not defs.of(fn.id):
+                        fn = getattr(fi.module, "assigns", {}).get(fn.id, fn)
+                    if _is_function_value(fn):
+                        _counter[0] += 1
+                        v = f"_m__x{_counter[0]}"
+                        elt = _BetaReduce().visit(ast.Call(func=copy.deepcopy(fn), args=[ast.Name(id=v, ctx=ast.Load())], keywords=[]))
+                        comp = ast.ListComp(elt=elt, generators=[ast.comprehension(target=ast.Name(id=v, ctx=ast.Store()), iter=seq, ifs=[], is_async=0)])
+                        return ast.fix_missing_locations(ast.copy_location(comp, c))
+                # a module-level name bound to attrgetter(..)/itemgetter(..)/a lambda
+                if isinstance(c.func, ast.Name) and not defs.of(c.func.id) and c.func.id not in defs.params:
+                    mv = getattr(fi.module, "assigns", {}).get(c.func.id)
+                    if mv is not None and _is_function_value(mv):
+                        r = _BetaReduce().visit(ast.copy_location(ast.Call(func=copy.deepcopy(mv), args=c.args, keywords=c.keywords), c))
+                        if not (isinstance(r, ast.Call) and r.func is not c.func and isinstance(r.func, (ast.Lambda, ast.Call))):
+                            return self.visit(r) if isinstance(r, ast.Subscript) else r
                 try:
                     ts, _ = norm.ctx.res.callees(fi, c, fi.cls)
                 except Exception:
